@@ -121,7 +121,7 @@ def make_collators(kind):
 
 
 STACKS = ("xtransform", "multiview", "subset>xtransform", "idw>concat", "xtransform>xtransform", "interleaved",
-          "ytransform")
+          "ytransform", "concat_shared_root")
 
 
 def make_stack(stack, spec, collators):
@@ -150,6 +150,11 @@ def make_stack(stack, spec, collators):
         return ModeWrapper(KDSubset(XTransformWrapper(root(), t()), [0, 2]), mode="x")
     if stack == "idw>concat":
         return ModeWrapper(IdW(KDConcatDataset([XTransformWrapper(root(), other()), XTransformWrapper(root(), t())])), mode="x")
+    if stack == "concat_shared_root":
+        # two different wrapper stacks over ONE root object (e.g. a weak and a strong view of the same dataset), plus a subset
+        r = root()
+        return ModeWrapper(KDConcatDataset([XTransformWrapper(r, other()), XTransformWrapper(r, t()),
+                                            KDSubset(XTransformWrapper(r, t()), [0, 1])]), mode="x")
     if stack == "xtransform>xtransform":
         return ModeWrapper(XTransformWrapper(XTransformWrapper(root(), t()), other()), mode="x")
     if stack == "interleaved":
